@@ -754,7 +754,19 @@ func storedValueDiscipline(c *core.Ctx, comparisons bool) {
 	}
 	// comparisons of interface values only between converted / stored values
 	k := 0
-	for _, f := range []*ssa.Function{uv} {
+	// updateValue itself, and the module functions it hands the stored and the new value to for comparison ( sameValue(c.Value, value) )
+	cmpFuncs := []*ssa.Function{uv}
+	core.Instrs(uv, func(i ssa.Instruction) {
+		if g := core.Callee(i); g != nil && core.InModule(g) && g != conv && len(g.Params) == 2 && len(g.Blocks) > 0 {
+			_, i0 := g.Params[0].Type().Underlying().(*types.Interface)
+			_, i1 := g.Params[1].Type().Underlying().(*types.Interface)
+			if i0 && i1 {
+				cmpFuncs = append(cmpFuncs, g)
+			}
+		}
+	})
+	for _, f := range cmpFuncs {
+		inHelper := f != uv
 		core.Instrs(f, func(i ssa.Instruction) {
 			b, ok := i.(*ssa.BinOp)
 			if !ok || (b.Op != token.EQL && b.Op != token.NEQ) {
@@ -780,6 +792,36 @@ func storedValueDiscipline(c *core.Ctx, comparisons bool) {
 					cc, ok := s.(*ssa.Call)
 					return ok && (core.Callee(cc) == conv || core.Callee(cc) != nil && strings.HasPrefix(cn(core.Callee(cc)), "clamp"))
 				})
+			}
+			// "converted" means comparable only for the formats convert knows. A characteristic made by NewCharacteristic has no format,
+			// an application may set one the library has no constant for ("int", the specification's name for the signed format): convert
+			// hands such a value back as it came, and the second write of a JSON array or object compares two slices or maps — a run-time
+			// panic in the handler. Either convert never returns its input, or the comparison is made only after both sides were found
+			// comparable.
+			rawReturn := false
+			if conv != nil {
+				core.Instrs(conv, func(j ssa.Instruction) {
+					if r, isR := j.(*ssa.Return); isR && len(r.Results) == 1 {
+						for _, sv := range core.Sources(r.Results[0]) {
+							if len(conv.Params) > 0 && sv == ssa.Value(conv.Params[len(conv.Params)-1]) {
+								rawReturn = true
+							}
+						}
+					}
+				})
+			}
+			guarded := false
+			for _, iff := range controlDepsAll(b.Block()) {
+				walkOperands(iff.Cond, 6, func(v ssa.Value) {
+					if call, isCall := v.(*ssa.Call); isCall && call.Call.IsInvoke() && call.Call.Method.Name() == "Comparable" {
+						guarded = true
+					}
+				})
+			}
+			c.Check(!rawReturn || guarded, fmt.Sprintf("compare-tolerates-uncomparable@%s#%d", fname(f), k), b.Pos(), "the comparison is made only between values found comparable (or convert never hands back its input)",
+				"convert hands a value of a format it does not know back as it came, and updateValue compares it with the stored one unguarded: the second write of a JSON array or object to a characteristic without a known format (NewCharacteristic, or Format \"int\") compares two slices or maps — the handler panics, the connection is dropped, and every later write of that kind panics again")
+			if inHelper {
+				return // what the helper is handed is judged at its call site (pass-through of the stored and the converted value)
 			}
 			c.Check(okSide(b.X) && okSide(b.Y), fmt.Sprintf("interface-comparison@%s#%d", fname(f), k), b.Pos(), "compares converted / stored values (comparable basic types)", "an interface comparison involves a raw, unconverted input value: comparing two equal JSON arrays or objects panics (uncomparable type)")
 		})
